@@ -101,6 +101,10 @@ TOL = 1e-9
 
 # ================================================================================ generators
 
+GEOM_QUERIES = ("boundary_tri_index", "unique_edge_indices", "edge_indices", "tri_areas", "edge_lengths",
+                "unique_edge_lengths", "mean_edge_length", "mean_tri_area", "tri_normals", "vertex_normals")
+
+
 def dy(rng, kmax=64, den=8):
     return rng.randint(-kmax, kmax) / float(den)
 
@@ -383,6 +387,16 @@ def mask_case(ctx, case, lines=None, pending=None, cid=None):
     kept = [t for t in T if all(vmask[v] for v in t)]
     all_true = all(vmask)
     in_quantifier = len(kept) >= 1
+    # history: half of the cases query the geometry of the mesh *before* masking it, so that anything a
+    # query leaves behind on the instance (memoised edges, areas, normals) is carried into the masking
+    warmed = (hash((len(P), len(T), tuple(m))) % 2) == 0
+    if warmed:
+        for q in GEOM_QUERIES:
+            try:
+                getattr(mesh, q)()
+            except Exception:   # noqa: BLE001 - judged by the geometry family, not here
+                pass
+    ctx.count("mask-history:" + ("queried-before" if warmed else "fresh"))
     before = (mesh.points.copy(), mesh.trilist.copy())
     try:
         arr = np.array(m, dtype=bool)
@@ -437,6 +451,27 @@ def mask_case(ctx, case, lines=None, pending=None, cid=None):
                                 "the texture image changed", rp)
         ok &= ctx.check(np.array_equal(mesh.points, before[0]) and np.array_equal(mesh.trilist, before[1]), site,
                         "receiver-mutated", "masking changed the mesh it was called on", rp)
+        if valid and rt:
+            # the masked mesh answers geometry queries as a mesh freshly built from its own points and triangles
+            from menpo.shape import TriMesh
+            fresh = TriMesh(res.points.copy(), trilist=res.trilist.copy())
+            for q in GEOM_QUERIES:
+                try:
+                    a = np.asarray(getattr(res, q)())
+                    ea = None
+                except Exception as e:   # noqa: BLE001
+                    a, ea = None, type(e).__name__
+                try:
+                    b = np.asarray(getattr(fresh, q)())
+                    eb = None
+                except Exception as e:   # noqa: BLE001
+                    b, eb = None, type(e).__name__
+                same = (ea == eb) if (a is None or b is None) else (
+                    a.shape == b.shape and bool(np.allclose(a, b, rtol=1e-9, atol=1e-12, equal_nan=True)))
+                ok &= ctx.check(same, site, "stale-geometry:" + q,
+                                "%s() of the masked mesh differs from the same query on a mesh freshly built from its "
+                                "points and triangles%s" % (q, " (the mesh had been queried before masking)" if warmed else ""),
+                                dict(rp, queried_before_masking=warmed))
         if ok:
             obs = ("ok", rt, [list(r) for r in rpnts],
                    [list(r) for r in res.colours.tolist()] if cols else [],
